@@ -92,7 +92,35 @@ class Evaluator:
             found = [st for st in m.tree.body if (isinstance(st, ast.Assign) and any(isinstance(t, ast.Name) and t.id == name for t in st.targets))
                      or (isinstance(st, (ast.FunctionDef, ast.ClassDef)) and st.name == name)]
             cache[name] = found[0] if len(found) == 1 else None
+            if cache[name] is None and not found:
+                cache[name] = self._imported_binding(name)
         return cache[name]
+
+    def _imported_binding(self, name):
+        """A function that the module imports by name from another module of the analysed package:
+        ('import', target module, FunctionDef), so that the helper is evaluated from its own source."""
+        m = self.module
+        repo = getattr(m, 'repo', None)
+        if repo is None:
+            return None
+        for st in m.tree.body:
+            if isinstance(st, ast.ImportFrom):
+                for a in st.names:
+                    if (a.asname or a.name) != name:
+                        continue
+                    if st.level:
+                        base = m.rel.split('/')[:-1]
+                        base = base[:len(base) - (st.level - 1)]
+                        parts = base + (st.module.split('.') if st.module else [])
+                    else:
+                        parts = (st.module or '').split('.')
+                    for rel in ('/'.join(parts) + '.py', '/'.join(parts) + '/__init__.py'):
+                        tm = repo.modules.get(rel)
+                        if tm is not None:
+                            cands = [x for x in tm.tree.body if isinstance(x, ast.FunctionDef) and x.name == a.name]
+                            if len(cands) == 1:
+                                return ('import', tm, cands[0])
+        return None
 
     def _class_member(self, name):
         m = self.module
@@ -406,6 +434,8 @@ class Evaluator:
             if isinstance(getattr(builtins, e.id, None), type) and issubclass(getattr(builtins, e.id), BaseException):
                 return e.id  # exception classes are modelled by their names
             b = self._module_binding(e.id)
+            if isinstance(b, tuple) and b[0] == 'import':
+                return lambda *a, _b=b, **k: Evaluator(_b[2], self.intrinsics, None, self.model_types, _b[1], None, self.depth + 1).call_function(_b[2], a, k)
             if isinstance(b, ast.Assign):
                 return self.expr(b.value, {})
             if isinstance(b, ast.FunctionDef):
@@ -659,6 +689,8 @@ class Evaluator:
                 if f.id in self.intrinsics:
                     return self.intrinsics[f.id](*args, **kwargs)
                 b = self._module_binding(f.id)
+                if isinstance(b, tuple) and b[0] == 'import':
+                    return Evaluator(b[2], self.intrinsics, None, self.model_types, b[1], None, self.depth + 1).call_function(b[2], args, kwargs)
                 if isinstance(b, ast.FunctionDef):
                     return self.call_function(b, args, kwargs)
                 if isinstance(b, ast.Assign):
